@@ -295,6 +295,35 @@ example : graphAxisSlicePath (.int (-2)) [0, 1, 2] = .ok (.drop 1) ∧
     graphAxisSlicePath (.int (-1)) [0, 1, 2] = .ok (.drop 2) ∧
     graphAxisSlicePath (.int 3) [0, 1, 2] = .error .indexError := by decide
 
+/-- **The converter computes NumPy's per-axis maps** — for *every* expression (any number of 1-D
+indices, wherever they stand): if the graph returns a tensor, its view is, axis by axis, what NumPy
+selects on that axis.  What this does not say is in which *order* NumPy lays the axes out
+(`numpyIndex` / `numpyIndexT` add that). -/
+theorem graph_index_axes_partial (comps : List Comp) (shape : List Nat) (r : View)
+    (hlen : comps.length ≤ shape.length)
+    (hdims : ∀ d ∈ shape, (d : Int) < maxint)
+    (hD22 : ∀ (j d : Nat) (lo hi st : Bnd), comps[j]? = some (.slice lo hi st) → shape[j]? = some d →
+        (st.val?).getD 1 < 0 → ∀ x, lo.val? = some x → -(d : Int) ≤ x)
+    (h : graphIndex comps shape = .ok r) : axiswise numpyAxis comps shape = .ok r := by
+  cases huse : useSlice comps with
+  | false => exact graph_gatherpath_axiswise comps shape r hlen huse h
+  | true =>
+    have hax := graph_slicepath_axiswise comps shape r hlen huse h
+    refine axiswise_mono _ numpyAxis comps shape r ?_ hax
+    intro j c d a hc hd hg
+    simp only [withGather] at hg
+    by_cases hk : (c.kind == Kind.nonScalar) = true
+    · simpa [hk] using hg
+    · simp only [hk, Bool.false_eq_true, if_false] at hg
+      rw [graphPre_not_nonScalar c _ (by simpa using hk)] at hg
+      refine graph_axis_refines_numpy_partial c (List.range d) a ?_ ?_ hg
+      · simp only [List.length_range]; exact hdims d (List.mem_of_getElem? hd)
+      · intro lo hi st hcs hneg x hx
+        subst hcs
+        simp only [List.length_range]
+        exact hD22 j d lo hi st hc hd hneg x hx
+
+
 /-- **Whole expressions, the converter (all paths, tensor-valued indices and bounds included).**
 For *every* index expression with at most one 1-D tensor index placed so that NumPy keeps the
 broadcast axis in place (`needsTranspose = false`) — `:`, Python ints, rank-0 tensor indices,
@@ -314,24 +343,8 @@ theorem graph_index_correct_partial (comps : List Comp) (shape : List Nat) (r : 
     (hD22 : ∀ (j d : Nat) (lo hi st : Bnd), comps[j]? = some (.slice lo hi st) → shape[j]? = some d →
         (st.val?).getD 1 < 0 → ∀ x, lo.val? = some x → -(d : Int) ≤ x)
     (h : graphIndex comps shape = .ok r) : numpyIndex comps shape = .ok r := by
-  refine numpyIndex_of_axiswise comps shape r hvec hnt hlen ?_
-  cases huse : useSlice comps with
-  | false => exact graph_gatherpath_axiswise comps shape r hlen huse h
-  | true =>
-    have hax := graph_slicepath_axiswise comps shape r hlen huse h
-    refine axiswise_mono _ numpyAxis comps shape r ?_ hax
-    intro j c d a hc hd hg
-    simp only [withGather] at hg
-    by_cases hk : (c.kind == Kind.nonScalar) = true
-    · simpa [hk] using hg
-    · simp only [hk, Bool.false_eq_true, if_false] at hg
-      rw [graphPre_not_nonScalar c _ (by simpa using hk)] at hg
-      refine graph_axis_refines_numpy_partial c (List.range d) a ?_ ?_ hg
-      · simp only [List.length_range]; exact hdims d (List.mem_of_getElem? hd)
-      · intro lo hi st hcs hneg x hx
-        subst hcs
-        simp only [List.length_range]
-        exact hD22 j d lo hi st hc hd hneg x hx
+  exact numpyIndex_of_axiswise comps shape r hvec hnt hlen
+    (graph_index_axes_partial comps shape r hlen hdims hD22 h)
 
 -- non-vacuity: the former D7 witnesses and a 1-D index, all satisfying the hypotheses
 example : graphIndex [.tScalar 1, .int 0] [2, 3, 4] = .ok [.drop 1, .drop 0, .pick [0, 1, 2, 3]] ∧
@@ -520,6 +533,20 @@ theorem eager_axis_refines_numpy (c : Comp) (srcs : List Nat) (a : AxisMap)
         rw [slice_list_eager_eq_numpy srcs _ _ _ hv] at h
         exact h
 
+/-- **Eager mode computes NumPy's per-axis maps** (at most one 1-D index, wherever it stands). -/
+theorem eager_index_axes (comps : List Comp) (shape : List Nat) (r : View)
+    (hvec : (comps.filter Comp.isVec).length ≤ 1)
+    (h : eagerIndex comps shape = .ok r) :
+    comps.length ≤ shape.length ∧ axiswise numpyAxis comps shape = .ok r := by
+  obtain ⟨hlen, F, hF, hax⟩ := eager_index_axiswise comps shape r hvec h
+  refine ⟨hlen, ?_⟩
+  refine axiswise_mono F numpyAxis comps shape r ?_ hF
+  intro j c d a hc hd hg
+  rcases hax j c d a hc hd hg with hn | he
+  · exact hn
+  · exact eager_axis_refines_numpy c (List.range d) a he
+
+
 /-- **Whole expressions, eager mode (all paths, tensor-valued indices and bounds included).**
 For *every* index expression with at most one 1-D tensor index placed so that NumPy keeps the
 broadcast axis in place — `:`, Python ints, rank-0 tensor indices, slices whose bounds and steps
@@ -534,13 +561,8 @@ theorem eager_index_correct_partial (comps : List Comp) (shape : List Nat) (r : 
     (hvec : (comps.filter Comp.isVec).length ≤ 1)
     (hnt : needsTranspose comps = false)
     (h : eagerIndex comps shape = .ok r) : numpyIndex comps shape = .ok r := by
-  obtain ⟨hlen, F, hF, hax⟩ := eager_index_axiswise comps shape r hvec h
-  refine numpyIndex_of_axiswise comps shape r hvec hnt hlen ?_
-  refine axiswise_mono F numpyAxis comps shape r ?_ hF
-  intro j c d a hc hd hg
-  rcases hax j c d a hc hd hg with hn | he
-  · exact hn
-  · exact eager_axis_refines_numpy c (List.range d) a he
+  obtain ⟨hlen, hax⟩ := eager_index_axes comps shape r hvec h
+  exact numpyIndex_of_axiswise comps shape r hvec hnt hlen hax
 
 example : eagerIndex [.int (-2), .slice (.const 1) .none .none] [3, 4] = .ok [.drop 1, .pick [1, 2, 3]] := by
   decide
@@ -608,32 +630,16 @@ theorem graph_axis_eq_numpy_partial (c : Comp) (srcs : List Nat)
           simp only [hb]
           rw [hstep v rfl hv]
 
-/-- **Whole expressions, the converter, converse direction ("exactly NumPy's result").**  For every
-index expression and shape: if NumPy returns a tensor (so the expression is within the modelled
-forms: at most one 1-D index, broadcast axis in place, not more components than axes), then the
-translated graph returns *that* tensor — it neither fails nor refuses — provided only that a
-tensor-valued step is written with both bounds (the converter's documented refusal) and the D22
-hypothesis holds.  Together with `graph_index_correct_partial`:
-`graphIndex comps shape = .ok r ↔ numpyIndex comps shape = .ok r` on these forms. -/
-theorem graph_index_complete_partial (comps : List Comp) (shape : List Nat) (r : View)
+/-- Converse core: whenever NumPy's per-axis maps exist, the translated graph runs and produces
+them (given the converter's refusal of a tensor-valued step without both bounds, and D22). -/
+theorem graph_index_of_axes_partial (comps : List Comp) (shape : List Nat) (r : View)
+    (hlen : comps.length ≤ shape.length)
     (hdims : ∀ d ∈ shape, (d : Int) < maxint)
     (hform : ∀ (j : Nat) (lo hi : Bnd) (s : Int), comps[j]? = some (.slice lo hi (.dyn s)) →
         ∃ l h, lo.val? = some l ∧ hi.val? = some h)
     (hD22 : ∀ (j d : Nat) (lo hi st : Bnd), comps[j]? = some (.slice lo hi st) → shape[j]? = some d →
         (st.val?).getD 1 < 0 → ∀ x, lo.val? = some x → -(d : Int) ≤ x)
-    (h : numpyIndex comps shape = .ok r) : graphIndex comps shape = .ok r := by
-  -- what NumPy's success says
-  unfold numpyIndex at h
-  by_cases h1 : comps.length > shape.length
-  · rw [if_pos h1] at h; cases h
-  rw [if_neg h1] at h
-  by_cases h2 : (comps.filter Comp.isVec).length > 1
-  · rw [if_pos h2] at h; cases h
-  rw [if_neg h2] at h
-  by_cases h3 : needsTranspose comps = true
-  · rw [if_pos h3] at h; cases h
-  rw [if_neg h3] at h
-  have hlen : comps.length ≤ shape.length := by omega
+    (h : axiswise numpyAxis comps shape = .ok r) : graphIndex comps shape = .ok r := by
   obtain ⟨_, hpw⟩ := axiswise_ok_pointwise numpyAxis comps shape r h
   cases huse : useSlice comps with
   | false => exact graph_gatherpath_complete comps shape r hlen huse h
@@ -667,6 +673,34 @@ theorem graph_index_complete_partial (comps : List Comp) (shape : List Nat) (r :
         subst hcs
         simp only [List.length_range]
         exact hD22 j d lo hi st hc hd hneg x hx
+
+
+/-- **Whole expressions, the converter, converse direction ("exactly NumPy's result").**  For every
+index expression and shape: if NumPy returns a tensor (so the expression is within the modelled
+forms: at most one 1-D index, broadcast axis in place, not more components than axes), then the
+translated graph returns *that* tensor — it neither fails nor refuses — provided only that a
+tensor-valued step is written with both bounds (the converter's documented refusal) and the D22
+hypothesis holds.  Together with `graph_index_correct_partial`:
+`graphIndex comps shape = .ok r ↔ numpyIndex comps shape = .ok r` on these forms. -/
+theorem graph_index_complete_partial (comps : List Comp) (shape : List Nat) (r : View)
+    (hdims : ∀ d ∈ shape, (d : Int) < maxint)
+    (hform : ∀ (j : Nat) (lo hi : Bnd) (s : Int), comps[j]? = some (.slice lo hi (.dyn s)) →
+        ∃ l h, lo.val? = some l ∧ hi.val? = some h)
+    (hD22 : ∀ (j d : Nat) (lo hi st : Bnd), comps[j]? = some (.slice lo hi st) → shape[j]? = some d →
+        (st.val?).getD 1 < 0 → ∀ x, lo.val? = some x → -(d : Int) ≤ x)
+    (h : numpyIndex comps shape = .ok r) : graphIndex comps shape = .ok r := by
+  -- what NumPy's success says
+  unfold numpyIndex at h
+  by_cases h1 : comps.length > shape.length
+  · rw [if_pos h1] at h; cases h
+  rw [if_neg h1] at h
+  by_cases h2 : (comps.filter Comp.isVec).length > 1
+  · rw [if_pos h2] at h; cases h
+  rw [if_neg h2] at h
+  by_cases h3 : needsTranspose comps = true
+  · rw [if_pos h3] at h; cases h
+  rw [if_neg h3] at h
+  exact graph_index_of_axes_partial comps shape r (by omega) hdims hform hD22 h
 
 example : numpyIndex [.int (-1), .tScalar 2, .slice .none .none (.const (-1))] [2, 3, 4]
       = .ok [.drop 1, .drop 2, .pick [3, 2, 1, 0]] ∧
@@ -712,6 +746,32 @@ theorem eager_axis_eq_numpy (c : Comp) (srcs : List Nat) (hv : c.isVec = false) 
         simp only [hb0]
         rw [slice_list_eager_eq_numpy srcs _ _ _ h0]
 
+/-- Converse core, eager mode: whenever NumPy's per-axis maps exist (at most one 1-D index, not more
+components than axes), `Tensor.__getitem__` runs and produces them. -/
+theorem eager_index_of_axes (comps : List Comp) (shape : List Nat) (r : View)
+    (hlen : comps.length ≤ shape.length)
+    (hvec : (comps.filter Comp.isVec).length ≤ 1)
+    (h : axiswise numpyAxis comps shape = .ok r) : eagerIndex comps shape = .ok r := by
+  obtain ⟨_, hpw⟩ := axiswise_ok_pointwise numpyAxis comps shape r h
+  refine OV.Index.eager_index_complete comps shape r hlen hvec ?_ h ?_
+  · intro c hc lo hi st hcs hsk h0
+    subst hcs
+    obtain ⟨j, hj⟩ := List.getElem?_of_mem hc
+    obtain ⟨d, a, _, ha⟩ := hpw j _ hj
+    simp only [numpyAxis] at ha
+    have : ((st.val?).getD 1 == 0) = true := by simpa using h0
+    simp [this] at ha
+  · refine axiswise_mono numpyAxis _ comps shape r ?_ h
+    intro j c d a _ _ ha
+    simp only [withGather]
+    by_cases hv : c.isVec = true
+    · simpa [hv] using ha
+    · have hv' : c.isVec = false := by simpa using hv
+      simp only [hv', Bool.false_eq_true, if_false]
+      rw [eagerPre_not_vec c _ hv', eager_axis_eq_numpy c _ hv']
+      exact ha
+
+
 /-- **Whole expressions, eager mode: exactly NumPy's result, no hypothesis.**  For every index
 expression and shape: if NumPy returns a tensor (so: at most one 1-D index, broadcast axis in
 place, not more components than axes, no zero step, every integer in range), then
@@ -730,24 +790,7 @@ theorem eager_index_complete (comps : List Comp) (shape : List Nat) (r : View)
   by_cases h3 : needsTranspose comps = true
   · rw [if_pos h3] at h; cases h
   rw [if_neg h3] at h
-  obtain ⟨_, hpw⟩ := axiswise_ok_pointwise numpyAxis comps shape r h
-  refine OV.Index.eager_index_complete comps shape r (by omega) (by omega) ?_ h ?_
-  · intro c hc lo hi st hcs hsk h0
-    subst hcs
-    obtain ⟨j, hj⟩ := List.getElem?_of_mem hc
-    obtain ⟨d, a, _, ha⟩ := hpw j _ hj
-    simp only [numpyAxis] at ha
-    have : ((st.val?).getD 1 == 0) = true := by simpa using h0
-    simp [this] at ha
-  · refine axiswise_mono numpyAxis _ comps shape r ?_ h
-    intro j c d a _ _ ha
-    simp only [withGather]
-    by_cases hv : c.isVec = true
-    · simpa [hv] using ha
-    · have hv' : c.isVec = false := by simpa using hv
-      simp only [hv', Bool.false_eq_true, if_false]
-      rw [eagerPre_not_vec c _ hv', eager_axis_eq_numpy c _ hv']
-      exact ha
+  exact eager_index_of_axes comps shape r (by omega) (by omega) h
 
 /-- … so, on the forms NumPy's side of the model expresses, eager indexing and NumPy agree as
 partial functions. -/
@@ -760,6 +803,104 @@ example : numpyIndex [.slice (.const (-9)) .none (.const (-2)), .int (-1), .tVec
       = .ok [.pick [], .drop 1, .pick [0, 2]] ∧
     eagerIndex [.slice (.const (-9)) .none (.const (-2)), .int (-1), .tVec [0, -1]] [4, 2, 3]
       = .ok [.pick [], .drop 1, .pick [0, 2]] := by decide
+
+/-! ### NumPy's axis order made explicit: one 1-D index anywhere (`numpyIndexT`) -/
+
+/-- **The converter, any position of the 1-D index**: if the graph returns a tensor, NumPy's result
+consists of exactly the same per-axis maps — and, when the advanced indices are split by a slice
+(`frontOf comps = some p`, e.g. `X[0, :, I]`), NumPy additionally moves the axis of the 1-D index to
+the front, which the graph (sequential Gathers, no Transpose) never does: finding C11-N3.  The
+hypothesis `needsTranspose = false` of `graph_index_correct_partial` is gone. -/
+theorem graph_index_correct_upto_front_partial (comps : List Comp) (shape : List Nat) (r : View)
+    (hvec : (comps.filter Comp.isVec).length ≤ 1)
+    (hlen : comps.length ≤ shape.length)
+    (hdims : ∀ d ∈ shape, (d : Int) < maxint)
+    (hD22 : ∀ (j d : Nat) (lo hi st : Bnd), comps[j]? = some (.slice lo hi st) → shape[j]? = some d →
+        (st.val?).getD 1 < 0 → ∀ x, lo.val? = some x → -(d : Int) ≤ x)
+    (h : graphIndex comps shape = .ok r) : numpyIndexT comps shape = .ok ⟨r, frontOf comps⟩ := by
+  have hax := graph_index_axes_partial comps shape r hlen hdims hD22 h
+  unfold numpyIndexT
+  rw [if_neg (by omega), if_neg (by omega), hax]
+  rfl
+
+/-- … and conversely the graph produces NumPy's per-axis maps whenever NumPy returns a result. -/
+theorem graph_index_complete_upto_front_partial (comps : List Comp) (shape : List Nat) (n : NView)
+    (hdims : ∀ d ∈ shape, (d : Int) < maxint)
+    (hform : ∀ (j : Nat) (lo hi : Bnd) (s : Int), comps[j]? = some (.slice lo hi (.dyn s)) →
+        ∃ l h, lo.val? = some l ∧ hi.val? = some h)
+    (hD22 : ∀ (j d : Nat) (lo hi st : Bnd), comps[j]? = some (.slice lo hi st) → shape[j]? = some d →
+        (st.val?).getD 1 < 0 → ∀ x, lo.val? = some x → -(d : Int) ≤ x)
+    (h : numpyIndexT comps shape = .ok n) : graphIndex comps shape = .ok n.view ∧ n.front = frontOf comps := by
+  unfold numpyIndexT at h
+  by_cases h1 : comps.length > shape.length
+  · rw [if_pos h1] at h; cases h
+  rw [if_neg h1] at h
+  by_cases h2 : (comps.filter Comp.isVec).length > 1
+  · rw [if_pos h2] at h; cases h
+  rw [if_neg h2] at h
+  cases hax : axiswise numpyAxis comps shape with
+  | error e => rw [hax] at h; cases h
+  | ok v =>
+    rw [hax] at h
+    have hn : n = ⟨v, frontOf comps⟩ := by cases h; rfl
+    subst hn
+    exact ⟨graph_index_of_axes_partial comps shape v (by omega) hdims hform hD22 hax, rfl⟩
+
+/-- **Eager mode and NumPy, any position of the 1-D index, as an equivalence**: for every
+expression with at most one 1-D index, `Tensor.__getitem__` returns the view `r` if and only if
+NumPy's result is `r` with the axis `frontOf comps` moved to the front (no move when
+`frontOf comps = none`).  No other hypothesis. -/
+theorem eager_index_iff_numpyT (comps : List Comp) (shape : List Nat) (r : View)
+    (hvec : (comps.filter Comp.isVec).length ≤ 1) :
+    eagerIndex comps shape = .ok r ↔ numpyIndexT comps shape = .ok ⟨r, frontOf comps⟩ := by
+  constructor
+  · intro h
+    obtain ⟨hlen, hax⟩ := eager_index_axes comps shape r hvec h
+    unfold numpyIndexT
+    rw [if_neg (by omega), if_neg (by omega), hax]
+    rfl
+  · intro h
+    unfold numpyIndexT at h
+    by_cases h1 : comps.length > shape.length
+    · rw [if_pos h1] at h; cases h
+    rw [if_neg h1] at h
+    rw [if_neg (by omega)] at h
+    cases hax : axiswise numpyAxis comps shape with
+    | error e => rw [hax] at h; cases h
+    | ok v =>
+      rw [hax] at h
+      have hv : v = r := by cases h; rfl
+      subst hv
+      exact eager_index_of_axes comps shape v (by omega) hvec hax
+
+/-- `numpyIndexT` extends `numpyIndex`: where the latter answers, the former gives the same view
+with no axis moved. -/
+theorem numpyIndexT_of_numpyIndex (comps : List Comp) (shape : List Nat) (r : View)
+    (h : numpyIndex comps shape = .ok r) : numpyIndexT comps shape = .ok ⟨r, none⟩ := by
+  unfold numpyIndex at h
+  by_cases h1 : comps.length > shape.length
+  · rw [if_pos h1] at h; cases h
+  rw [if_neg h1] at h
+  by_cases h2 : (comps.filter Comp.isVec).length > 1
+  · rw [if_pos h2] at h; cases h
+  rw [if_neg h2] at h
+  by_cases h3 : needsTranspose comps = true
+  · rw [if_pos h3] at h; cases h
+  rw [if_neg h3] at h
+  unfold numpyIndexT frontOf
+  rw [if_neg h1, if_neg h2, h, if_neg h3]
+  rfl
+
+/-- **Finding C11-N3** (open): `X[0, :, I]` on a 2×3×4 tensor, `I = [1, 0]`.  Both front ends return
+the view with the axes in place (shape `[3, 2]`); NumPy returns the same selections with the axis of
+`I` first (shape `[2, 3]`).  Replayed on the real code by the check. -/
+theorem index_front_axis_witness :
+    graphIndex [.int 0, .full, .tVec [1, 0]] [2, 3, 4] = .ok [.drop 0, .pick [0, 1, 2], .pick [1, 0]] ∧
+    eagerIndex [.int 0, .full, .tVec [1, 0]] [2, 3, 4] = .ok [.drop 0, .pick [0, 1, 2], .pick [1, 0]] ∧
+    numpyIndexT [.int 0, .full, .tVec [1, 0]] [2, 3, 4]
+      = .ok ⟨[.drop 0, .pick [0, 1, 2], .pick [1, 0]], some 2⟩ ∧
+    (NView.mk [.drop 0, .pick [0, 1, 2], .pick [1, 0]] (some 2)).shape = [2, 3] ∧
+    View.shape [.drop 0, .pick [0, 1, 2], .pick [1, 0]] = [3, 2] := by decide
 
 /-- **The two front ends agree** (DESIGN: `graph_eq_eager_partial`): whenever the translated graph
 and eager mode both return a tensor for the same expression (within the forms of
